@@ -2,7 +2,8 @@
    Type.Convert of /repo produced for the same value. *)
 From Coq Require Import List NArith ZArith Bool.
 Import ListNotations.
-From GMS Require Import Base.CorrLib Codec.C28Date Codec.C28Wire Codec.C28Str Codec.C28Bin.
+From GMS Require Codec.C28Json Codec.C28JsonWire.
+From GMS Require Import Base.CorrLib Codec.C28Date Codec.C28Wire Codec.C28Str Codec.C28Bin Codec.C28Meta.
 Open Scope Z_scope.
 
 Definition oz_eqb := option_eqb Z.eqb.
@@ -45,7 +46,12 @@ Inductive case : Type :=
 | CStr (t : sty) (s : bytes) (runes announced : N) (txt : bytes) (back : option bytes)
 (* one binary-protocol row as sent by the server: per non-NULL column the stored value, the text Type.SQL gives,
    and the bytes found in the row *)
-| CBinRow (items : list binitem).
+| CBinRow (bitmap : bytes) (nulls : list bool) (items : list binitem)
+(* column definitions as sent: declared type, (NOT NULL, PRIMARY KEY, AUTO_INCREMENT), observed (type code, flags,
+   decimals, column length, character set) *)
+(* JSON column: document, observed text, observed Convert(text) (None = error) *)
+| CJson (j : C28Json.json) (txt : bytes) (back : option C28Json.json)
+| CMeta (cols : list (colty * (bool * bool * bool) * (Z * Z * Z * Z * Z))).
 
 Definition on_text (txt : option bytes) (f : bytes -> option Z) : option Z :=
   match txt with Some t => f t | None => None end.
@@ -65,8 +71,22 @@ Definition ok (c : case) : bool :=
   | CEnum names i txt back => bytes_eqb (enum_sql_text names i) txt && oz_eqb (enum_convert_text names txt) back
   | CSet names b txt back => bytes_eqb (set_sql_text names b) txt && oz_eqb (set_convert_text names txt) back
   | CStr t s runes announced txt back =>
-      (N.of_nat (rune_count s) =? runes)%N && (N.of_nat (str_announced t) =? announced)%N && bytes_eqb (str_sql_text t s) txt && obytes_eqb (str_convert_text t txt) back
-  | CBinRow items => forallb bin_ok items
+      (N.of_nat (rune_count s) =? runes)%N && (N.of_nat (str_announced t) =? announced)%N && obytes_eqb (str_sql_text t s) (Some txt) && obytes_eqb (str_convert_text t txt) back
+  | CBinRow bitmap nulls items =>
+      bytes_eqb (null_bitmap nulls) bitmap &&
+      forallb (fun i => Bool.eqb (bitmap_is_null bitmap i) (nth i nulls false)) (seq 0 (length nulls)) &&
+      forallb bin_ok items
+  | CJson j txt back =>
+      bytes_eqb (C28JsonWire.json_sql_text j) txt &&
+      match C28JsonWire.json_convert_text txt, back with
+      | Some a, Some b => C28JsonWire.json_same a b
+      | None, None => true
+      | _, _ => false
+      end
+  | CMeta cols =>
+      forallb (fun x => let '(c, (nn, pk, ai), (ty, fl, dec, len, cs)) := x in
+                 (meta_type c =? ty) && (meta_flags c nn pk ai =? fl) && (meta_decimals c =? dec) &&
+                 (meta_length c =? len) && (meta_charset c =? cs)) cols
   end.
 
 Definition mismatches (cs : list (N * case)) : list N :=
